@@ -462,7 +462,10 @@ def check_vcf(prog, rep, tier):
         okslice = False
         if a is not None:
             for n in ast.walk(a):
-                if isinstance(n, ast.Subscript) and isinstance(n.value, ast.Name) and n.value.id in geno_vars and isinstance(n.slice, ast.Tuple) \
+                is_geno = (isinstance(n, ast.Subscript) and isinstance(n.value, ast.Name) and n.value.id in geno_vars) or \
+                    (isinstance(n, ast.Subscript) and any(isinstance(m_, ast.Attribute) and m_.attr == "genotypes" and isinstance(m_.value, ast.Name) and m_.value.id == rec
+                                                         for m_ in ast.walk(n.value)))
+                if is_geno and isinstance(n.slice, ast.Tuple) \
                         and len(n.slice.elts) == 2:
                     s0, s1 = n.slice.elts
                     full = isinstance(s0, ast.Slice) and s0.lower is None and s0.upper is None and s0.step is None
